@@ -131,6 +131,21 @@ func c16pure(run *h.Run, in *v1.ExtendedDaemonSetSpec, mode v1.ExtendedDaemonSet
 	nonNil("maxParallelPodCreation", du.MaxParallelPodCreation)
 	nonNil("slowStartIntervalDuration", du.SlowStartIntervalDuration)
 	nonNil("reconcileFrequency", d1.Spec.Strategy.ReconcileFrequency)
+	// an object that is recognised as defaulted is never defaulted by the reconcilers: it must already have what defaulting
+	// guarantees them (the fields they dereference, a pod template without a name)
+	if v1.IsDefaultedExtendedDaemonSet(eds) {
+		run.Count("antecedent:C16/raw-recognised-as-defaulted", 1)
+		rawRU := eds.Spec.Strategy.RollingUpdate
+		for name, p := range map[string]interface{}{"maxUnavailable": rawRU.MaxUnavailable, "maxPodSchedulerFailure": rawRU.MaxPodSchedulerFailure, "slowStartAdditiveIncrease": rawRU.SlowStartAdditiveIncrease,
+			"maxParallelPodCreation": rawRU.MaxParallelPodCreation, "slowStartIntervalDuration": rawRU.SlowStartIntervalDuration, "reconcileFrequency": eds.Spec.Strategy.ReconcileFrequency} {
+			if reflect.ValueOf(p).IsNil() {
+				viol("C16/default: an object recognised as defaulted lacks a field the reconcilers dereference: "+name, name)
+			}
+		}
+		if eds.Spec.Template.Name != "" {
+			viol("C16/default: an object recognised as defaulted still carries a pod template name (it would never be cleared)", eds.Spec.Template.Name)
+		}
+	}
 	if (in.Strategy.Canary == nil) != (d1.Spec.Strategy.Canary == nil) {
 		viol("C16/default: canary block added or removed", "")
 	}
@@ -494,6 +509,26 @@ func TestC16(t *testing.T) {
 					}
 				}
 				run.Count("pure_evaluations", int64(2*(hi-lo)))
+				// the same canary blocks next to a rolling-update block in which the user wrote out every field, with and
+				// without reconcileFrequency: such an object may be "recognised as defaulted" without ever having been defaulted
+				one, pc := intstr.FromInt(1), int32(250)
+				for ci, c := range canaries[lo:hi] {
+					if full && (lo+ci)%8 != 0 {
+						continue // the thorough canary lattice is 50 times larger: every 8th block gets the cross product
+					}
+					for _, tn := range []string{"", "x"} {
+						for _, rf := range []*metav1.Duration{nil, {Duration: 10 * time.Second}} {
+							sp := &v1.ExtendedDaemonSetSpec{}
+							sp.Strategy.Canary = c
+							sp.Strategy.ReconcileFrequency = rf
+							sp.Strategy.RollingUpdate = v1.ExtendedDaemonSetSpecStrategyRollingUpdate{MaxUnavailable: &one, MaxPodSchedulerFailure: &one, SlowStartAdditiveIncrease: &one,
+								MaxParallelPodCreation: &pc, SlowStartIntervalDuration: &metav1.Duration{Duration: time.Minute}}
+							sp.Template.Name = tn
+							c16pure(run, sp, m)
+						}
+					}
+				}
+				run.Count("pure_evaluations", int64(4*(hi-lo)))
 			}
 		}
 		for lo := 0; lo < len(rollings); lo += chunk {
